@@ -170,7 +170,7 @@ MStart ==
   /\ StartHandshake(Ser(PostBuild.hello, PostBuild.exts))
   /\ step' = 3 /\ UNCHANGED <<srv, mode, sess, nmut, hist, cfgSNI, order>>
 \* clientHelloMsg.marshal returns original (= Hello.Raw) when it is set
-MSendCH1 == SendCH1(raw) /\ UNCHANGED mvars
+MSendCH1 == SendCH1(raw, raw) /\ UNCHANGED mvars
 MServerFirst ==
   /\ phase = "ch1"
   /\ IF srv = "plain" THEN ServerHello ELSE ServerHRR
